@@ -162,16 +162,16 @@ def trySetMinF : IView → Int → Ctx → Option Ctx
   | .opp v, m, ctx => trySetMaxF v (-m) ctx
   | .plus v k, m, ctx => trySetMinF v (m - k) ctx
   | .tpos v k, m, ctx => trySetMinF v (ceilDiv m k) ctx
-  | .next v, m, ctx => trySetMinF v m ctx
-  | .prev v, m, ctx => trySetMinF v m ctx
+  | .next v, m, ctx => trySetMinF v (m - 1) ctx
+  | .prev v, m, ctx => trySetMinF v (m + 1) ctx
 def trySetMaxF : IView → Int → Ctx → Option Ctx
   | .const c, m, ctx => if m ≥ c then some ctx else none
   | .var i, m, ctx => ctx.trySetMax i m
   | .opp v, m, ctx => trySetMinF v (-m) ctx
   | .plus v k, m, ctx => trySetMaxF v (m - k) ctx
   | .tpos v k, m, ctx => trySetMaxF v (floorDiv m k) ctx
-  | .next v, m, ctx => trySetMaxF v m ctx
-  | .prev v, m, ctx => trySetMaxF v m ctx
+  | .next v, m, ctx => trySetMaxF v (m - 1) ctx
+  | .prev v, m, ctx => trySetMaxF v (m + 1) ctx
 end
 
 def vmin (v : IView) (c : Ctx) : Int := v.minRaw c.st
@@ -612,7 +612,7 @@ def pruneDiv (x y : IView) (s : Nat) (ctx : Ctx) : Option Ctx :=
   let xmax := x.vmax ctx
   let ymin := y.vmin ctx
   let ymax := y.vmax ctx
-  if rangeHasZero ymin ymax then some ctx
+  if rangeHasZero ymin ymax then (if ymin = ymax then none else some ctx)
   else
     ctx.trySetMin s (Dom.dmin [ceilDiv xmin ymin, ceilDiv xmin ymax, ceilDiv xmax ymin, ceilDiv xmax ymax])
       >>>= (·.trySetMax s (Dom.dmax [floorDiv xmin ymin, floorDiv xmin ymax, floorDiv xmax ymin, floorDiv xmax ymax]))
@@ -644,7 +644,7 @@ def pruneMod (x y : IView) (s : Nat) (ctx : Ctx) : Option Ctx :=
   let ymax := y.vmax ctx
   let smin := (ctx.st s).dmin
   let smax := (ctx.st s).dmax
-  if rangeHasZero ymin ymax then some ctx
+  if rangeHasZero ymin ymax then (if ymin = ymax then none else some ctx)
   else if xmin = xmax ∧ ymin = ymax then
     ctx.trySetMin s (Int.tmod xmin ymin) >>>= (·.trySetMax s (Int.tmod xmin ymin))
   else
@@ -671,7 +671,7 @@ def pruneMod (x y : IView) (s : Nat) (ctx : Ctx) : Option Ctx :=
 running lower bound only grows and the upper bound only shrinks) -/
 def pruneAllEqual (xs : List Nat) (ctx : Ctx) : Option Ctx :=
   match xs with
-  | [] => none
+  | [] => some ctx
   | x0 :: rest =>
     let lo := rest.foldl (fun acc x => if (ctx.st x).dmin > acc then (ctx.st x).dmin else acc) (ctx.st x0).dmin
     let hi := rest.foldl (fun acc x => if (ctx.st x).dmax < acc then (ctx.st x).dmax else acc) (ctx.st x0).dmax
